@@ -149,6 +149,13 @@ class Recorder:
             self._pending = (case, unknown)
         return unknown
 
+    def run_tagged(self, case, **kw):
+        """Like run(), for modules whose run_case leaves a set of situation tags in mod.LAST_TAGS: the tags become
+        class counters in the evidence (the distribution the generator actually produced)."""
+        fs = self.execute(case)
+        tags = tuple(sorted(getattr(self.mod, 'LAST_TAGS', ()) or ()))
+        return self.run(case, failures=fs, classes=tags + tuple(kw.pop('classes', ())), **kw)
+
     def note_violation(self, case, failures):
         sigs = {f['sig'] for f in failures}
         for c, fs in self.violations:
